@@ -2,6 +2,7 @@ import TFV.Properties.Tree
 import TFV.Properties.TreeCR
 import TFV.Properties.Src.TreeIdx
 import TFV.Properties.Src.CommonRegion
+import TFV.Properties.Src.TreeMethods
 #print axioms TFV.Tree.C09_scan_flat
 #print axioms TFV.Tree.C09_size_flat
 #print axioms TFV.Tree.C09_endSub
@@ -27,3 +28,8 @@ import TFV.Properties.Src.CommonRegion
 #print axioms TFV.SrcTie.C09_src_find_end_subtree_size
 #print axioms TFV.SrcTie.C09_src_find_id_args_positions
 #print axioms TFV.SrcTie.C09_src_common_region_two_trees
+#print axioms TFV.SrcTie.C09_src_tree_subtree_id
+#print axioms TFV.SrcTie.C09_src_tree_subtree
+#print axioms TFV.SrcTie.C09_src_tree_concat
+#print axioms TFV.SrcTie.C09_src_tree_subtree_is_subterm
+#print axioms TFV.SrcTie.C09_src_tree_concat_splices
